@@ -102,6 +102,7 @@ def sqrt_const(q):
     return Fraction(n, d)
   name = 'sqrtc_%d_%d' % (q.numerator, q.denominator)
   c = z3.Real(name)
+  declare_sign(c, 'pos')
   lo = Fraction(math.sqrt(q)) * Fraction(999, 1000)
   CONST_FACTS[name] = [c > z3.RealVal(str(lo)), c * c == z3.RealVal(str(q))]
   return c
@@ -316,15 +317,41 @@ def n_div(a, b):
   return zreal(a) / zreal(b)
 
 
+SIGNS = {}   # z3 ast id -> (term, 'pos' | 'nonneg'): sign facts known at construction time (declared by harness/engine)
+
+
+def declare_sign(term, sign):
+  SIGNS[term.get_id()] = (term, sign)
+
+
+def _sign(x):
+  if is_z(x):
+    e = SIGNS.get(x.get_id())
+    return e[1] if e is not None else None
+  return None
+
+
 def n_lt(a, b):
   if not is_z(a) and not is_z(b):
     return a < b
+  if not is_z(a) and a == 0 and _sign(b) == 'pos':      # 0 < b
+    return True
+  if not is_z(b) and b == 0 and _sign(a) in ('pos', 'nonneg'):   # a < 0
+    return False
+  if not is_z(a) and a < 0 and _sign(b) in ('pos', 'nonneg'):
+    return True
+  if not is_z(b) and b < 0 and _sign(a) in ('pos', 'nonneg'):
+    return False
   return zr(a) < zr(b)
 
 
 def n_le(a, b):
   if not is_z(a) and not is_z(b):
     return a <= b
+  if not is_z(a) and a <= 0 and _sign(b) in ('pos', 'nonneg'):
+    return True
+  if not is_z(b) and b == 0 and _sign(a) == 'pos':
+    return False
   return zr(a) <= zr(b)
 
 
@@ -333,6 +360,10 @@ def n_eq(a, b):
     return a == b
   if is_z(a) and is_z(b) and a.eq(b):
     return True
+  if not is_z(a) and a <= 0 and _sign(b) == 'pos' or not is_z(b) and b <= 0 and _sign(a) == 'pos':
+    return False
+  if not is_z(a) and a < 0 and _sign(b) == 'nonneg' or not is_z(b) and b < 0 and _sign(a) == 'nonneg':
+    return False
   return zr(a) == zr(b)
 
 
@@ -575,11 +606,12 @@ class Ctx:
         return Fraction(math.sqrt(a))
       return sqrt_const(a)
     za = zreal(a)
-    canon = z3.simplify(za, som=True)
+    canon = z3.simplify(za, som=True, sort_sums=True)
     k = canon.get_id()
     if k in self.sqrt_memo:
       return self.sqrt_memo[k][1]
     s = z3.Real('sqrt!%d' % next(self.fresh))
+    declare_sign(s, 'nonneg')
     self.facts += [s >= 0, s * s == canon]
     self.sqrt_memo[k] = (canon, s)   # keep canon alive so the id stays unique
     return s
@@ -620,6 +652,7 @@ class Ctx:
     F = self.uf(fn, 1)
     t = F(zreal(a))
     if fn == 'exp':
+      declare_sign(t, 'pos')
       self.facts.append(t > 0)
       self.trans_terms['exp'].append((zreal(a), t))
       return t
